@@ -15,6 +15,8 @@ fn shapes(max_nodes: usize) -> Vec<Value> {
         Leaf,
         Acts(usize),
         Branches(Vec<u8>),
+        /// branches and acts in one step
+        Both(Vec<u8>, usize),
     }
     let mut step_kinds: Vec<S> = vec![S::Leaf, S::Acts(1), S::Acts(2)];
     for a in 0..3u8 {
@@ -22,10 +24,13 @@ fn shapes(max_nodes: usize) -> Vec<Value> {
             step_kinds.push(S::Branches(vec![a, b]));
         }
     }
+    step_kinds.push(S::Both(vec![0, 0], 1));
+    step_kinds.push(S::Both(vec![1, 0], 2));
     let nodes = |s: &S| match s {
         S::Leaf => 1,
         S::Acts(n) => 1 + n,
         S::Branches(bs) => 1 + bs.iter().map(|b| 1 + *b as usize).sum::<usize>(),
+        S::Both(bs, n) => 1 + n + bs.iter().map(|b| 1 + *b as usize).sum::<usize>(),
     };
     let mut out = vec![];
     let mut seqs: Vec<Vec<S>> = vec![vec![]];
@@ -55,7 +60,10 @@ fn shapes(max_nodes: usize) -> Vec<Value> {
                     S::Acts(c) => {
                         st["acts"] = json!((0..*c).map(|i| json!({"id": id("a"), "uses": if i == 0 { "acts.core.irq" } else { "acts.core.msg" }, "key": format!("k{i}")})).collect::<Vec<_>>());
                     }
-                    S::Branches(bs) => {
+                    S::Branches(bs) | S::Both(bs, _) => {
+                        if let S::Both(_, c) = k {
+                            st["acts"] = json!((0..*c).map(|i| json!({"id": id("a"), "uses": "acts.core.irq", "key": format!("k{i}")})).collect::<Vec<_>>());
+                        }
                         let mut brs = vec![];
                         for (bi, b) in bs.iter().enumerate() {
                             let mut br = json!({"id": id("b")});
@@ -285,12 +293,27 @@ fn check_model(c: &mut Ctx, m: &Value, label: &str, out: &mut ItemOut) {
     // deploy four times: stored model == given, version counts the deploys, one event per `on`
     let ex = c.sess.engine.executor();
     for k in 1..=4 {
+        // the model changes between deploys: name and tag of the second and fourth deploy differ
+        let mut wf = wf.clone();
+        let mut m = m.clone();
+        if k % 2 == 0 {
+            wf.name = format!("名 v{k}");
+            wf.tag = format!("tag{k}");
+            m["name"] = json!(wf.name);
+            m["tag"] = json!(wf.tag);
+        }
         if let Err(e) = ex.model().deploy(&wf) {
             c.viols.entry("deploy/rejected".into()).or_insert(format!("{label}: deploy of a valid model fails: {e}"));
             return;
         }
         match c.sess.engine.verif().models().find(&mid) {
             Ok(row) => {
+                if row.name != wf.name || row.id != mid {
+                    c.viols.entry("deploy/row-name".into()).or_insert(format!("{label}: after deploy {k} the model row says name '{}' but the deployed model is named '{}'", row.name, wf.name));
+                }
+                if row.size as usize != row.data.len() {
+                    c.viols.entry("deploy/row-size".into()).or_insert(format!("{label}: the model row says size {} but its text has {} bytes", row.size, row.data.len()));
+                }
                 if row.ver != k {
                     c.viols.entry("deploy/version".into()).or_insert(format!("{label}: after {k} deploys the stored version is {}", row.ver));
                 }
